@@ -8,8 +8,8 @@ package sim
 // reference map and across backends.
 
 import (
-	"errors"
 	"encoding/json"
+	"errors"
 	"fmt"
 	"sort"
 	"strings"
@@ -222,9 +222,9 @@ func ExecuteC10(t *testing.T, plan *Plan) *RunResult {
 			name string
 			rev  int
 		}
-		rmwStatus := map[key]string{}  // status set by read-modify-write since the last create/update
+		rmwStatus := map[key]string{}   // status set by read-modify-write since the last create/update
 		effective := map[key]*StoreOp{} // the create/update that produced the content currently stored
-		model := map[key]string{}      // key -> projection
+		model := map[key]string{}       // key -> projection
 		modelLabels := map[key]labelT{} // key -> system label view used by queries
 		violate := func(clause, op, cause, detail string, step int) {
 			res.Violations = append(res.Violations, Violation{"C10", clause, op, cause, detail, step})
@@ -638,6 +638,9 @@ func genC10(seed, index uint64, tier string) *Plan {
 			}
 			if g.Chance(0.3) {
 				op.Labels = map[string]string{"team": g.Pick("red", "blue"), "verif.example/x": "y_1.2"}
+				if g.Chance(0.4) {
+					op.Labels["canary"] = "" // a marker label: the empty string is a valid label value and part of what was stored
+				}
 			}
 		}
 		if faulty && g.Chance(0.25) && op.Op != "list" && op.Op != "query" && op.Op != "rmw" {
